@@ -81,6 +81,8 @@ class C02(Check):
         self.oracle_bad = []
         self.roundtrip_bad = []
         self._find_n = 0
+        self.tok_cmp = 0
+        self.tok_bad = []
 
     # ------------------------------------------------------------ generation
     def _add(self, out, block, ast, env, spacing=1, wrap=True, find=None):
@@ -246,6 +248,7 @@ class C02(Check):
             macros.append([m.name, self._toks(m.replacement)])
         envd = {n: (None if b == 0 else b) for n, b in (envast or [])}
         bad = ["L", "", ""]
+        subst = [False]
 
         def ea(n):
             k = n[0]
@@ -256,11 +259,13 @@ class C02(Check):
                 return ["C", U.render_char(n)[1:-1]]
             if k == "I":
                 if n[1] in envd:
+                    subst[0] = True
                     return bad if envd[n[1]] is None else ea(envd[n[1]])
                 return ["I", n[1]]
             if k == "D":
                 return ["D", n[1], 1 if n[2] else 0]
             if k == "F":
+                subst[0] = True
                 return bad
             if k == "P":
                 return ["P", ea(n[1])]
@@ -271,7 +276,8 @@ class C02(Check):
             if k == "T":
                 return ["T", ea(n[1]), ea(n[2]), ea(n[3])]
             raise ValueError(n)
-        return enc([toks, macros, ea(ast) if ast else 0])
+        e_ast = ea(ast) if ast else 0
+        return enc([toks, macros, e_ast, 1 if (ast and not subst[0]) else 0])
 
     # ------------------------------------------------------------ the implementation
     def impl(self, case):
@@ -354,6 +360,10 @@ class C02(Check):
 
     def model_view(self, case, ans):
         m = ans[0]
+        if len(ans) > 2 and ans[2] != "NA":
+            self.tok_cmp += 1
+            if ans[2] != 1 and len(self.tok_bad) < 5:
+                self.tok_bad.append(case[0])
         if m[0] == "Ok":
             return ["Ok", m[1], m[2], m[3]]
         if m[1] == "Unsupported":
@@ -518,6 +528,8 @@ class C02(Check):
             problems.append(f"renderer round trip (ISO level-by-level parser) failed on {self.roundtrip_bad[0]}")
         if self.s_mismatch:
             problems.append(f"Coq S and the Python oracle disagree: {self.s_mismatch[0]}")
+        if self.tok_bad:
+            problems.append(f"Lexer(render(e)) differs from the Coq unparser `tokens dt_source 0 e` on {self.tok_bad[0]!r}")
         if shutil.which("gcc") is None:
             return problems
         rng = self.rng
@@ -593,7 +605,8 @@ class C02(Check):
         return {"spec_oracle_cases": self.oracle_cases, "spec_oracle_disagreements": len(self.oracle_bad),
                 "spec_oracle_dropped_gcc_diagnosed": self.oracle_dropped,
                 "input_distribution": self.hist,
-                "coq_S_vs_python_oracle_mismatches": len(self.s_mismatch)}
+                "coq_S_vs_python_oracle_mismatches": len(self.s_mismatch),
+                "lexer_output_equals_coq_unparser": {"compared": self.tok_cmp, "different": len(self.tok_bad)}}
 
 
 CHECK = C02
